@@ -532,6 +532,7 @@ class FnWeave:
         self.r11 = None     # None | {'vec': type or None}
         self.r12 = None     # concrete return type replacing an `impl Trait` return type
         self.r13 = False    # `for` loops over std iterators -> loop { match it.next() {..} }
+        self.r14 = []       # names of `&str` values whose `.len()` is replaced by the definition `.as_bytes().len()`
 
 
 def weave_fn(text, w, rules, vacuity=False, name='?'):
@@ -837,6 +838,10 @@ def build_unit(unit_path, vacuity=False, degrade=None):
                         # R11: iterator adaptor chains -> their defining loops (vx/r11.py)
                         mm = re.match(r'r11\s+vec=(.+)$', d2)
                         w.r11 = {'vec': mm.group(1).strip() if mm else None}
+                    elif d2.startswith('r14 '):
+                        # R14: `S.len()` for a `&str` S -> `S.as_bytes().len()` (the definition of str::len in core::str; vstd specifies
+                        # str::len only for ASCII text, but str::as_bytes as the UTF-8 encoding)
+                        w.r14 += d2[4:].split()
                     elif d2 == 'r13':
                         # R13: `for PAT in EXPR BODY` -> its definition `loop { match it.next() { None => break, Some(PAT) => BODY } }`
                         w.r13 = True
@@ -896,6 +901,13 @@ def build_unit(unit_path, vacuity=False, degrade=None):
                 if 'external_body' not in w.attr:
                     w.attr = (w.attr.rstrip('\n') + '\n' if w.attr.strip() else '') + '#[verifier::external_body]\n'
                 degraded.append({'function': f + ' :: ' + fname, 'reason': why})
+            for nm in w.r14:
+                new14, k14 = re.subn(r'\b%s\s*\.\s*len\s*\(\s*\)' % re.escape(nm), nm + '.as_bytes().len()', txt)
+                if k14 == 0 and not w.opaque:
+                    _degrade('lost anchor: r14: no `%s.len()` in fn %s' % (nm, fname))
+                for _ in range(k14):
+                    rules.hit('R14', 'fn %s: %s.len() -> %s.as_bytes().len()' % (fname, nm, nm))
+                txt = new14
             if w.r13 and not w.opaque:
                 try:
                     txt, notes13 = r11.desugar_for(txt)
